@@ -62,10 +62,27 @@ func propC18(p *Prog, r *Report) {
 	var nObj types.Object
 	var nDef ast.Expr
 	ast.Inspect(loop.Body, func(x ast.Node) bool {
-		if as, ok := x.(*ast.AssignStmt); ok && len(as.Lhs) == 1 && len(as.Rhs) == 1 && nObj == nil {
-			if o := objOf(info, as.Lhs[0]); o != nil {
-				if bt, ok := o.Type().(*types.Basic); ok && bt.Info()&types.IsInteger != 0 {
-					nObj, nDef = o, as.Rhs[0]
+		if as, ok := x.(*ast.AssignStmt); ok && len(as.Lhs) == len(as.Rhs) && nObj == nil {
+			// (alone or in a parallel assignment with other hoisted values: mid, last := len(arr)/2, len(arr)-1;
+			// the probe is the one computed by a division)
+			for i := range as.Lhs {
+				o := objOf(info, as.Lhs[i])
+				if o == nil || nObj != nil {
+					continue
+				}
+				bt, ok := o.Type().(*types.Basic)
+				if !ok || bt.Info()&types.IsInteger == 0 {
+					continue
+				}
+				divides := len(as.Lhs) == 1
+				ast.Inspect(as.Rhs[i], func(y ast.Node) bool {
+					if be, isB := y.(*ast.BinaryExpr); isB && (be.Op == token.QUO || be.Op == token.SHR) {
+						divides = true
+					}
+					return true
+				})
+				if divides {
+					nObj, nDef = o, as.Rhs[i]
 				}
 			}
 		}
